@@ -71,7 +71,7 @@ def check_case(spec):
     dev = build.make_device_or_refuse(spec["device"])
     opts = build.make_options(spec["options"], dev)
     try:
-        solver = build.make_solver(dev, opts, applied_vector_potential=build.make_vector_potential(spec["field"], dev, opts.field_units),
+        solver = build.make_solver(dev, opts, applied_vector_potential=build.make_vector_potential(spec["field"], dev, opts.field_units, opts.solve_time),
                                    terminal_currents=build.make_currents(spec["currents"]))
     except ValueError as exc:
         if "does not contain any points" in str(exc):
